@@ -14,6 +14,7 @@ pub mod c14;
 pub mod c15;
 pub mod c16;
 pub mod c17;
+pub mod c18;
 pub mod c19;
 pub mod c20;
 
@@ -39,6 +40,7 @@ pub fn run(cfg: RunCfg, verif_dir: &str) -> i32 {
         "C15" => c15::run(&mut run),
         "C16" => c16::run(&mut run),
         "C17" => c17::run(&mut run),
+        "C18" => c18::run(&mut run),
         "C19" => c19::run(&mut run),
         "C20" => c20::run(&mut run),
         _ => {
@@ -66,6 +68,7 @@ pub fn replay(id: &str, suite: &str, path: &str) -> Result<(), String> {
         "C15" => c15::replay(suite, path),
         "C16" => c16::replay(suite, path),
         "C17" => c17::replay(suite, path),
+        "C18" => c18::replay(suite, path),
         "C19" => c19::replay(suite, path),
         "C20" => c20::replay(suite, path),
         _ => Err(format!("unknown property {id}")),
